@@ -124,3 +124,358 @@ Example real_decoder_nonvacuous :
      OPaste [([233], [195; 169]); ([60; 85; 80; 62], [27; 91; 65])]%N;
      OSched 5 8; OEvent SrcInt 3; ONone].
 Proof. vm_compute. reflexivity. Qed.
+
+(* ========================================================================== *)
+(* The further theorems of Proofs/InputQ.v for the real decoder                  *)
+(* ========================================================================== *)
+(* (b) something deliverable at the call => returned at once, clock untouched *)
+Theorem real_decoder_deliverable_at_once : forall enc mode th tmo s sc s' sc' o,
+  deliverable_at_call s -> send (find_key_real enc mode) th tmo s sc = (s', sc', o) ->
+  now s' = now s /\ sc' = sc /\ o <> ONone /\ o <> OBlocked /\ o <> OFuel.
+Proof.
+  intros enc mode th tmo s sc s' sc' o. unfold send.
+  apply deliverable_at_once; [apply find_key_real_lossless|apply find_key_real_progress].
+Qed.
+
+Lemma real_decoded_key_named : forall enc mode ku,
+  decoded_key (find_key_real enc mode) ku ->
+  snd ku <> [] /\ name_ok enc mode (snd ku) (fst ku) = true.
+Proof.
+  intros enc mode [k used] (buf & rest & E). cbn [fst snd] in *. split.
+  - pose proof (find_key_real_progress enc mode buf) as HP. now rewrite E in HP.
+  - eapply find_key_real_named; exact E.
+Qed.
+
+(* (c) the paste clause with the real decoder: every keypress of the paste event
+   (of the single key, below the threshold) is the C03 name of exactly its bytes *)
+Theorem real_decoder_read_burst : forall enc mode th tmo s sc s' sc' o,
+  sigints s = [] -> qev s = [] -> qint s = [] -> (forall q, In q (qsched s) -> now s <= fst q) ->
+  unproc s = [] -> kq s <> [] ->
+  send (find_key_real enc mode) th tmo s sc = (s', sc', o) ->
+  let n := Nat.min read_size_nat (length (kq s)) in
+  now s' = now s /\ sc' = sc /\
+  ((exists e d, o = ORaise e d /\ decoder_raised (find_key_real enc mode) e) \/
+   if match th with Some t => t <? Z.of_nat n | None => false end
+   then exists ks, o = OPaste ks /\ concat (map snd ks) = kq s /\
+                   Forall (fun ku => snd ku <> [] /\ name_ok enc mode (snd ku) (fst ku) = true) ks /\
+                   unproc s' = [] /\ kq s' = []
+   else exists k used, o = OKey k used /\ name_ok enc mode used k = true /\ used <> [] /\
+                       used ++ unproc s' ++ kq s' = kq s).
+Proof.
+  intros enc mode th tmo s sc s' sc' o H1 H2 H3 H4 H5 H6 E n. unfold send in E.
+  pose proof (read_burst (find_key_real enc mode) (find_key_real_lossless enc mode)
+                (find_key_real_progress enc mode) false th tmo s sc s' sc' o H1 H2 H3 H4 H5 H6 E) as R.
+  cbv zeta in R. fold n in R. destruct R as (R1 & R2 & R3). split; [exact R1|]. split; [exact R2|].
+  destruct R3 as [R3|R3]; [now left|right].
+  destruct (match th with Some t => t <? Z.of_nat n | None => false end).
+  - destruct R3 as (ks & Ro & Rc & RF & Ru & Rk). exists ks. repeat split; auto.
+    eapply Forall_impl; [|exact RF]. intros ku Hku. now apply real_decoded_key_named.
+  - destruct R3 as (k & used & Ro & Rd & Rn & Rb). exists k, used. repeat split; auto.
+    apply (real_decoded_key_named enc mode (k, used) Rd).
+Qed.
+
+Example real_decoder_read_burst_nonvacuous :
+  let s := apply_envs [Arrive [195; 169; 27; 91; 65; 226; 130; 172]%N] (init 0) in
+  let '(s', _, o) := send (find_key_real Utf8 CURTSIES) (Some 3) None s [] in
+  o = OPaste [([233], [195; 169]); ([60; 85; 80; 62], [27; 91; 65]); ([8364], [226; 130; 172])]%N /\
+  unproc s' = [] /\ kq s' = [].
+Proof. vm_compute. auto. Qed.
+
+(* a request raises only if the real decoder raised, or the UnboundLocalError case *)
+Theorem real_decoder_raise_origin : forall enc mode th tmo s sc s' sc' e d,
+  send (find_key_real enc mode) th tmo s sc = (s', sc', ORaise e d) ->
+  decoder_raised (find_key_real enc mode) e \/
+  (e = OtherError /\ d = [] /\ qsched s = [] /\ exists q, sched_in sc q).
+Proof.
+  intros enc mode th tmo s sc s' sc' e d. unfold send.
+  apply raise_origin. apply find_key_real_progress.
+Qed.
+
+(* ========================================================================== *)
+(* (d) when the real decoder raises                                             *)
+(* ========================================================================== *)
+(* What a buffer can look like when the input stream is valid (ASCII bytes and
+   ESC-initiated table sequences, any byte under latin-1, well-formed multi-byte
+   characters under utf-8: Proofs/Keys.v [atom]) and reads end ANYWHERE:
+   - pieces: complete atoms, and stray continuation bytes (0x80..0xBF, utf-8) --
+     what is left of a character whose first bytes went with an earlier read;
+   - at the end possibly a character cut by the read boundary ([cut_tail]). *)
+Local Open Scope N_scope.
+
+Inductive piece (enc : encoding) : list N -> Prop :=
+| piece_atom : forall a, atom enc a -> piece enc a
+| piece_stray : forall b, enc = Utf8 -> 128 <= b < 192 -> piece enc [b].
+
+Inductive cut_tail (enc : encoding) : list N -> Prop :=
+| cut_none : cut_tail enc []
+| cut_char : forall c i, enc = Utf8 -> is_scalar c = true -> 128 <= c ->
+    (1 <= i < length (utf8_encode c))%nat -> cut_tail enc (firstn i (utf8_encode c)).
+
+Lemma firstn_has_high : forall c i, is_scalar c = true -> 128 <= c -> (1 <= i)%nat ->
+  has_high (firstn i (utf8_encode c)) = true.
+Proof.
+  intros c i Sc L Hi. destruct (utf8_atom_shape c Sc L) as (b0 & tail & E & Hb0 & _).
+  rewrite E. destruct i; [lia|]. cbn [firstn]. apply has_high_cons. lia.
+Qed.
+
+(* inside a character, after >= 2 of its bytes, the decoder asks for more even
+   when the read ends there (the known findings F-C08a/b start here) *)
+Lemma cut_full_more : forall c j mode full, is_scalar c = true -> 128 <= c ->
+  (2 <= j < length (utf8_encode c))%nat ->
+  get_key Utf8 mode full (firstn j (utf8_encode c)) = More.
+Proof.
+  intros c j mode full Sc L Hj.
+  assert (Tk : tok_ok Utf8 (utf8_encode c)).
+  { apply token_tok_ok. apply (tok_char Utf8 c).
+    - cbn [encode_char]. now rewrite Sc.
+    - destruct (utf8_atom_shape c Sc L) as (b0 & tail & E & Hb0 & Ht & Hh & Hl).
+      apply multibyte_not_table; [assumption|lia]. }
+  destruct Tk as (_ & Hpre & _).
+  pose proof (Hpre j ltac:(lia)) as HM.
+  set (s := firstn j (utf8_encode c)) in *.
+  assert (Hlen : length s = j) by (subst s; rewrite firstn_length; lia).
+  assert (Hh : has_high s = true) by (subst s; apply firstn_has_high; auto; lia).
+  apply get_key_more_iff in HM. destruct HM as (H1 & _ & H3).
+  apply get_key_more_iff. split; [exact H1|].
+  destruct H3 as [H3|H3]; [rewrite (high_not_prefix s Hh) in H3; discriminate|].
+  assert (HD : decodable Utf8 s = false).
+  { unfold waiting in H3. destruct (decodable Utf8 s); [discriminate|reflexivity]. }
+  destruct (high_long_not_table s Hh ltac:(lia)) as [Lc Ls].
+  split; [|now right].
+  unfold key_known, in_table. rewrite Lc, Ls, HD. now destruct full.
+Qed.
+
+(* the buffer runs out inside a character after >= 2 of its bytes: ValueError *)
+Lemma find_key_go_cut : forall c i, is_scalar c = true -> 128 <= c ->
+  (2 <= i < length (utf8_encode c))%nat ->
+  forall suf cur, cur ++ suf = firstn i (utf8_encode c) -> (cur <> [] \/ suf <> []) ->
+  find_key_go Utf8 BYTES cur suf = Raise ValueError.
+Proof.
+  intros c i Sc L Hi. set (t := utf8_encode c) in *.
+  assert (Tk : tok_ok Utf8 t).
+  { apply token_tok_ok. apply (tok_char Utf8 c).
+    - cbn [encode_char]. now rewrite Sc.
+    - destruct (utf8_atom_shape c Sc L) as (b0 & tail & E & Hb0 & Ht & Hh & Hl).
+      apply multibyte_not_table; [assumption|fold t; lia]. }
+  destruct Tk as (_ & Hpre & _).
+  induction suf as [|b suf IH]; intros cur E Hne; cbn [find_key_go].
+  - destruct cur; [destruct Hne as [Hne|Hne]; contradiction|reflexivity].
+  - assert (Hlen : (length cur + S (length suf) = i)%nat).
+    { apply (f_equal (@length N)) in E. rewrite app_length, firstn_length in E. cbn [length] in E. lia. }
+    assert (P : cur ++ [b] = firstn (length cur + 1) t).
+    { assert (E2 : firstn (length cur + 1) (firstn i t) = cur ++ [b]).
+      { rewrite <- E. replace (cur ++ b :: suf) with ((cur ++ [b]) ++ suf) by (now rewrite <- app_assoc).
+        rewrite firstn_app. replace (length cur + 1 - length (cur ++ [b]))%nat with O
+          by (rewrite app_length; cbn [length]; lia).
+        cbn [firstn]. rewrite app_nil_r. apply firstn_all2. rewrite app_length. cbn [length]. lia. }
+      rewrite <- E2. rewrite firstn_firstn. f_equal. lia. }
+    assert (HM : get_key Utf8 BYTES (is_nil suf) (cur ++ [b]) = More).
+    { rewrite P. destruct suf as [|b' suf'].
+      - cbn [is_nil]. apply cut_full_more; auto. cbn [length] in Hlen. fold t. lia.
+      - cbn [is_nil]. apply Hpre. cbn [length] in Hlen. lia. }
+    rewrite HM. apply IH.
+    + now rewrite <- app_assoc.
+    + left. destruct cur; discriminate.
+Qed.
+
+Definition ok_state' (cur : list N) (ps : list (list N)) (tl : list N) : Prop :=
+  cur = [] \/ (In cur keymap_prefixes /\ (ps <> [] \/ tl <> [])).
+
+Definition go_result' (enc : encoding) (cur : list N) (ps : list (list N)) (tl : list N)
+           (r : res (option (str * list N * list N))) : Prop :=
+  match r with
+  | Raise e =>
+      (enc <> Latin1 /\ e = UnicodeDecodeError /\
+       exists p b post, cur ++ concat ps ++ tl = p ++ b :: post /\ In p keymap_prefixes /\ 128 <= b) \/
+      (e = ValueError /\ enc = Utf8 /\ cur = [] /\ ps = [] /\ (2 <= length tl)%nat)
+  | Ok None => ps = [] /\ tl = []
+  | Ok (Some (_, _, rest)) =>
+      (exists used' ps', ps = used' ++ ps' /\ rest = concat ps' ++ tl) \/
+      (cur = [] /\ ps = [] /\ length tl = 1%nat /\ rest = [])
+  end.
+
+Lemma nonnil_of_is_nil : forall (ps : list (list N)) tl,
+  is_nil (concat ps ++ tl) = false -> ps <> [] \/ tl <> [].
+Proof.
+  intros ps tl H. destruct ps; [|left; discriminate]. destruct tl; [discriminate|right; discriminate].
+Qed.
+
+Lemma find_key_go_valid_cut : forall enc tl, cut_tail enc tl ->
+  forall ps, Forall (piece enc) ps ->
+  forall cur, ok_state' cur ps tl -> go_result' enc cur ps tl (find_key_go enc BYTES cur (concat ps ++ tl)).
+Proof.
+  intros enc tl Htl ps H. induction H as [|a ps Ha Hs IH]; intros cur St.
+  - (* only the cut character is left *)
+    cbn [concat app]. destruct Htl as [|c i -> Sc L Hi].
+    + destruct St as [->|[_ [C|C]]]; [cbn; auto|contradiction|contradiction].
+    + destruct (utf8_atom_shape c Sc L) as (b0 & tail & E & Hb0 & Ht & Hh & Hl).
+      destruct St as [->|[P _]].
+      * destruct (Nat.eq_dec i 1) as [->|Hi1].
+        -- rewrite E. cbn [firstn find_key_go app is_nil].
+           pose proof (one_step_tree [] b0 Utf8 BYTES true (or_introl eq_refl) ltac:(lia)) as T.
+           cbn [app] in T. unfold expected_step, expected_step_with in T. cbn [nonempty andb app] in T.
+           rewrite andb_false_r in T.
+           assert (T' : shape_of (get_key Utf8 BYTES true [b0]) = SKey)
+             by (rewrite T; destruct (growable [b0]); reflexivity).
+           apply shape_key in T'. destruct T' as [n ->]. cbn [go_result']. right. auto.
+        -- rewrite (find_key_go_cut c i Sc L ltac:(lia) (firstn i (utf8_encode c)) []); [|reflexivity|].
+           ++ cbn [go_result']. right. repeat split; auto. rewrite firstn_length. lia.
+           ++ right. rewrite E. destruct i; [lia|discriminate].
+      * rewrite E. destruct i; [lia|]. cbn [firstn find_key_go].
+        assert (R : get_key Utf8 BYTES (is_nil (firstn i tail)) (cur ++ [b0]) = Err UnicodeDecodeError).
+        { apply one_step_raises_iff; [now right | lia |]. repeat split; try lia; try discriminate.
+          intro; subst cur. now apply prefix_nonempty. }
+        rewrite R. cbn [go_result']. left. split; [discriminate|]. split; [reflexivity|].
+        exists cur, b0, (firstn i tail). repeat split; [assumption|lia].
+  - assert (Node : In cur tree_nodes) by (destruct St as [->|[P _]]; [now left|now right]).
+    assert (Single : forall b, a = [b] -> b < 256 ->
+              nonempty cur && (128 <=? b) && negb (encoding_eqb enc Latin1) = false ->
+              (forall full, encoding_eqb enc Utf8 && is_nil cur && in_range 192 253 b && negb full = false) ->
+              go_result' enc cur (a :: ps) tl (find_key_go enc BYTES cur (concat (a :: ps) ++ tl))).
+    { intros b -> Hb C1 C2. cbn [concat app find_key_go].
+      pose proof (one_step_tree cur b enc BYTES (is_nil (concat ps ++ tl)) Node Hb) as T.
+      unfold expected_step, expected_step_with in T. rewrite C1, C2 in T.
+      destruct (growable (cur ++ [b])) eqn:G; [destruct (is_nil (concat ps ++ tl)) eqn:F|].
+      - apply shape_key in T. destruct T as [n ->]. cbn [go_result']. left. exists [[b]], ps. auto.
+      - apply shape_more in T. rewrite T.
+        assert (St' : ok_state' (cur ++ [b]) ps tl).
+        { right. split; [apply in_prefixes_In; now rewrite prefixes_correct|]. now apply nonnil_of_is_nil. }
+        specialize (IH (cur ++ [b]) St').
+        destruct (find_key_go enc BYTES (cur ++ [b]) (concat ps ++ tl)) as [[[[k u] r]|]|e]; cbn [go_result'] in *.
+        + destruct IH as [(used' & ps' & -> & ->)|(C & _)]; [|destruct cur; discriminate].
+          left. exists ([b] :: used'), ps'. auto.
+        + destruct IH as [-> ->]. discriminate.
+        + destruct IH as [(I1 & I2 & p & b' & post & E & I3)|(_ & _ & C & _)]; [|destruct cur; discriminate].
+          left. split; [assumption|]. split; [assumption|].
+          exists p, b', post. rewrite <- app_assoc in E. cbn [app] in E. auto.
+      - apply shape_key in T. destruct T as [n ->]. cbn [go_result']. left. exists [[b]], ps. auto. }
+    assert (FC03 : forall b post, 128 <= b < 256 -> enc <> Latin1 -> In cur keymap_prefixes ->
+              concat (a :: ps) ++ tl = b :: post ->
+              go_result' enc cur (a :: ps) tl (find_key_go enc BYTES cur (concat (a :: ps) ++ tl))).
+    { intros b post Hb HL P E. rewrite E. cbn [find_key_go].
+      assert (R : get_key enc BYTES (is_nil post) (cur ++ [b]) = Err UnicodeDecodeError).
+      { apply one_step_raises_iff; [now right | lia |]. repeat split; try lia; try assumption.
+        intro; subst cur. now apply prefix_nonempty. }
+      rewrite R. cbn [go_result']. left. split; [assumption|]. split; [reflexivity|].
+      exists cur, b, post. rewrite E. repeat split; [assumption|lia]. }
+    destruct Ha as [a Hat | b -> Hb].
+    + destruct Hat as [b Hb | b -> Hb | c -> Sc L].
+      * apply (Single b); [reflexivity | lia | |].
+        -- replace (128 <=? b) with false by lia. now rewrite andb_false_r.
+        -- intro full. unfold in_range. replace (192 <=? b) with false by lia. cbn [andb].
+           now rewrite andb_false_r.
+      * apply (Single b); [reflexivity | assumption | now rewrite andb_false_r | reflexivity].
+      * destruct (utf8_atom_shape c Sc L) as [b0 [tail [E [Hb0 [Ht [Hh Hl]]]]]].
+        destruct St as [->|[P _]].
+        -- cbn [concat]. rewrite <- app_assoc.
+           assert (Tk : tok_ok Utf8 (utf8_encode c)).
+           { apply token_tok_ok. apply (tok_char Utf8 c).
+             - cbn [encode_char]. now rewrite Sc.
+             - apply multibyte_not_table; [assumption|lia]. }
+           rewrite (find_key_go_token Utf8 _ (concat ps ++ tl) Tk (utf8_encode c) []); [|reflexivity|apply Tk].
+           cbn [go_result']. left. exists [utf8_encode c], ps. auto.
+        -- apply (FC03 b0 (tail ++ concat ps ++ tl)); [lia|discriminate|assumption|].
+           cbn [concat]. rewrite E. now rewrite <- !app_assoc.
+    + destruct St as [->|[P _]].
+      * apply (Single b); [reflexivity | lia | reflexivity |].
+        intro full. unfold in_range. replace (b <=? 253) with true by lia.
+        replace (192 <=? b) with false by lia. now rewrite andb_false_r.
+      * apply (FC03 b (concat ps ++ tl)); [lia|discriminate|assumption|reflexivity].
+Qed.
+
+Lemma fk_go_raise_cases : forall enc mode buf cur e used rest,
+  fk_go enc mode cur buf = FkRaise e used rest ->
+  (e = ValueError /\ rest = [] /\ used = cur ++ buf) \/
+  (exists full, get_key enc mode full used = Err e).
+Proof.
+  induction buf as [|b buf IH]; intros cur e used rest H; cbn [fk_go] in H.
+  - destruct cur; [discriminate|]. injection H as <- <- <-. left. rewrite app_nil_r. auto.
+  - destruct (get_key enc mode (is_nil buf) (cur ++ [b])) as [n| |e'] eqn:G; [discriminate| |].
+    + apply IH in H. destruct H as [(A & B & C)|H]; [left|now right].
+      rewrite <- app_assoc in C. auto.
+    + injection H as <- <- <-. right. exists (is_nil buf). exact G.
+Qed.
+
+Lemma cut_tail_short : forall enc tl, cut_tail enc tl -> (length tl <= 3)%nat.
+Proof.
+  intros enc tl [|c i _ Sc L Hi]; [cbn; lia|].
+  destruct (utf8_atom_shape c Sc L) as (_ & _ & _ & _ & _ & _ & Hl). rewrite firstn_length. lia.
+Qed.
+
+Lemma find_key_go_to_bytes : forall enc mode buf,
+  cut1 (fk_erase (find_key_real enc mode buf)) = cut1 (find_key_go enc BYTES [] buf).
+Proof.
+  intros enc mode buf. unfold find_key_real. rewrite fk_go_find_key_go. apply find_key_go_cuts.
+Qed.
+
+(* (d) The real decoder, on ANY buffer made of valid pieces with possibly a
+   character cut by the read boundary at its end, in every encoding and naming
+   mode, raises only
+   - F-C03: UnicodeDecodeError, utf-8/ascii, a member of KEYMAP_PREFIXES directly
+     followed by a byte >= 0x80 in the buffer; or
+   - F-C08a/b: ValueError, utf-8, the buffer IS the beginning of a multi-byte
+     character, >= 2 of its bytes (the read boundary fell strictly inside the
+     character after >= 2 of its bytes); then exactly those bytes are popped
+     (and thereby dropped by _send), nothing stays. *)
+Theorem real_decoder_raises_only_known : forall enc mode ps tl e used rest,
+  Forall (piece enc) ps -> cut_tail enc tl ->
+  find_key_real enc mode (concat ps ++ tl) = FkRaise e used rest ->
+  (e = UnicodeDecodeError /\ enc <> Latin1 /\ fc03_in (concat ps ++ tl)) \/
+  (e = ValueError /\ enc = Utf8 /\ ps = [] /\ (2 <= length tl)%nat /\ used = tl /\ rest = []).
+Proof.
+  intros enc mode ps tl e used rest Hps Htl E.
+  pose proof (find_key_go_to_bytes enc mode (concat ps ++ tl)) as HC. rewrite E in HC. cbn [fk_erase cut1] in HC.
+  pose proof (find_key_go_valid_cut enc tl Htl ps Hps [] (or_introl eq_refl)) as G.
+  destruct (find_key_go enc BYTES [] (concat ps ++ tl)) as [[[[k u] r]|]|e']; cbn [cut1] in HC; try discriminate.
+  injection HC as <-. cbn [go_result'] in G.
+  destruct G as [(G1 & G2 & p & b & post & G3 & G4 & G5)|(G1 & G2 & _ & G3 & G4)].
+  - left. split; [assumption|]. split; [assumption|]. exists [], p, b, post. cbn [app] in *. auto.
+  - right. subst ps. cbn [concat app] in *. repeat split; auto.
+    + unfold find_key_real in E. pose proof (fk_go_split enc mode tl []) as HS. rewrite E in HS.
+      destruct HS as [HS _]. cbn [app] in HS.
+      apply fk_go_raise_cases in E. destruct E as [(_ & _ & E)|[full E]]; [exact E|exfalso].
+      apply get_key_raises_iff in E. destruct E as [[E _]|(_ & _ & _ & _ & E)]; [|subst e; discriminate].
+      pose proof (cut_tail_short enc tl Htl) as Hsh. pose proof max_keypress_ge_4 as HM.
+      apply (f_equal (@length N)) in HS. rewrite app_length in HS. lia.
+    + unfold find_key_real in E. pose proof (fk_go_split enc mode tl []) as HS. rewrite E in HS.
+      destruct HS as [HS _]. cbn [app] in HS.
+      apply fk_go_raise_cases in E. destruct E as [(_ & E & _)|[full E]]; [exact E|exfalso].
+      apply get_key_raises_iff in E. destruct E as [[E _]|(_ & _ & _ & _ & E)]; [|subst e; discriminate].
+      pose proof (cut_tail_short enc tl Htl) as Hsh. pose proof max_keypress_ge_4 as HM.
+      apply (f_equal (@length N)) in HS. rewrite app_length in HS. lia.
+Qed.
+
+(* ... and when it answers a key, the key is cut at a piece boundary and what
+   stays in the buffer is again such a buffer (so the statement above applies to
+   every later call on what is left); or the buffer was the first byte of a cut
+   character, which alone is (mis)taken for an 8-bit Meta key (no raise, nothing lost) *)
+Theorem real_decoder_key_on_valid : forall enc mode ps tl k used rest,
+  Forall (piece enc) ps -> cut_tail enc tl ->
+  find_key_real enc mode (concat ps ++ tl) = FkKey k used rest ->
+  (exists used' ps', ps = used' ++ ps' /\ used = concat used' /\ rest = concat ps' ++ tl) \/
+  (ps = [] /\ length tl = 1%nat /\ used = tl /\ rest = []).
+Proof.
+  intros enc mode ps tl k used rest Hps Htl E.
+  pose proof (find_key_real_lossless enc mode (concat ps ++ tl)) as HL. rewrite E in HL.
+  pose proof (find_key_go_to_bytes enc mode (concat ps ++ tl)) as HC. rewrite E in HC. cbn [fk_erase cut1] in HC.
+  pose proof (find_key_go_valid_cut enc tl Htl ps Hps [] (or_introl eq_refl)) as G.
+  destruct (find_key_go enc BYTES [] (concat ps ++ tl)) as [[[[k' u] r]|]|e']; cbn [cut1] in HC; try discriminate.
+  injection HC as <- <-. cbn [go_result'] in G.
+  destruct G as [(used' & ps' & -> & ->)|(_ & -> & G2 & ->)].
+  - left. exists used', ps'. split; [reflexivity|]. split; [|reflexivity].
+    rewrite concat_app, <- app_assoc in HL. now apply app_inv_tail in HL.
+  - right. cbn [concat app] in HL. rewrite app_nil_r in HL. auto.
+Qed.
+
+Example real_decoder_raises_nonvacuous :
+  piece Utf8 [97] /\ cut_tail Utf8 [226; 130] /\
+  find_key_real Utf8 CURTSIES [226; 130] = FkRaise ValueError [226; 130] [] /\
+  find_key_real Utf8 CURTSIES (concat [[97]] ++ [226; 130]) = FkKey [97] [97] [226; 130] /\
+  find_key_real Utf8 CURTSIES [27; 195; 169] = FkRaise UnicodeDecodeError [27; 195] [169] /\
+  find_key_real Utf8 CURTSIES [226] = FkKey [60; 77; 101; 116; 97; 45; 98; 62] [226] [].
+Proof.
+  split; [apply piece_atom, atom_ascii; lia|].
+  split; [apply (cut_char Utf8 8364 2); [reflexivity|reflexivity|lia|vm_compute; lia]|].
+  vm_compute. repeat split.
+Qed.
+Close Scope N_scope.
